@@ -100,6 +100,104 @@ fn site_e() -> (FuncPtr, CallCountVerifier) {
     )
 }
 
+
+// ---- many distinct counted call sites, all installed through ONE injector ------------------------
+/// one function per site (bodies differ, so identical-code folding cannot merge them)
+#[inline(never)]
+fn mass_victim<const K: u32>(x: u32) -> u32 {
+    black_box(x).wrapping_mul(3).wrapping_add(K)
+}
+macro_rules! mass_sites {
+    ($($k:literal)*) => {
+        pub const MASS_N: usize = [$($k),*].len();
+        fn mass_target(i: usize) -> FuncPtr {
+            match i {
+                $($k => injectorpp::func!(mass_victim::<$k>, fn(u32) -> u32),)*
+                _ => unreachable!(),
+            }
+        }
+        /// each arm is its own `fake!` expression, hence its own static counter
+        fn mass_site(i: usize) -> (FuncPtr, CallCountVerifier) {
+            match i {
+                $($k => injectorpp::fake!(func_type: fn(x: u32) -> u32, returns: x + 5000 + $k, times: 1),)*
+                _ => unreachable!(),
+            }
+        }
+        fn mass_call(i: usize, x: u32) -> u32 {
+            match i {
+                $($k => black_box(mass_victim::<$k> as fn(u32) -> u32)(x),)*
+                _ => 0,
+            }
+        }
+    };
+}
+mass_sites!(0 1 2 3 4 5 6 7 8 9 10 11 12 13 14 15 16 17 18 19 20 21 22 23 24 25 26 27 28 29 30 31 32 33 34 35 36 37 38 39 40 41 42 43 44 45 46 47 48 49 50 51 52 53 54 55 56 57 58 59 60 61 62 63 64 65 66 67 68 69 70 71 72 73 74 75 76 77 78 79 80 81 82 83 84 85 86 87 88 89 90 91 92 93 94 95 96 97 98 99 100 101 102 103 104 105 106 107 108 109 110 111 112 113 114 115 116 117 118 119 120 121 122 123 124 125 126 127 128 129 130 131 132 133 134 135 136 137 138 139 140 141 142 143 144 145 146 147 148 149 150 151 152 153 154 155 156 157 158 159);
+
+/// Lifetimes that each install EVERY site through one injector and call every function exactly
+/// once: no call may be refused, every answer is the fake's, scope exit is quiet; afterwards the
+/// originals are back.  (Anything kept per counted installation in a bounded structure overflows.)
+fn execute_mass(sc: &CountScenario, sh: &Shared) -> Value {
+    let mut viol: Vec<Value> = Vec::new();
+    let mut digest = 0x3A55u64;
+    let mut calls = 0u64;
+    let mut rng = Rng::new(sc.seed ^ sc.index.wrapping_mul(0x9E37_79B9));
+    'life: for li in 0..sc.mass_lifetimes {
+        sh.note(PH_OTHER, li as u64, 0, 0);
+        let mut order: Vec<usize> = (0..MASS_N).collect();
+        for i in (1..order.len()).rev() {
+            let j = rng.below(i as u64 + 1) as usize;
+            order.swap(i, j);
+        }
+        let body = catch_unwind(AssertUnwindSafe(|| {
+            let mut inj = InjectorPP::new();
+            for i in &order {
+                inj.when_called(mass_target(*i)).will_execute(mass_site(*i));
+            }
+            let mut bad: Vec<String> = Vec::new();
+            for i in order.iter().rev() {
+                match catch_unwind(AssertUnwindSafe(|| mass_call(*i, 7))) {
+                    Ok(v) if v == 7 + 5000 + *i as u32 => {}
+                    Ok(v) => bad.push(format!("site {i}: the call returned {v}, the fake gives {}", 7 + 5000 + *i as u32)),
+                    Err(p) => bad.push(format!("site {i}: the only call of this lifetime panicked: {}", panic_msg(&p))),
+                }
+            }
+            drop(inj);
+            bad
+        }));
+        calls += MASS_N as u64;
+        digest = digest.rotate_left(3) ^ li as u64;
+        match body {
+            Ok(bad) => {
+                if let Some(b) = bad.first() {
+                    viol.push(json!({"tag": "call-within-budget-rejected", "props": ["C06", "C07"], "detail": format!("lifetime {li}, {} counted call sites installed through one injector, each called exactly once: {} problem(s), first: {b}", MASS_N, bad.len())}));
+                    break 'life;
+                }
+            }
+            Err(p) => {
+                viol.push(json!({"tag": "spurious-count-mismatch-at-scope-exit", "props": ["C06", "C07"], "detail": format!("lifetime {li}, {} counted call sites each called exactly once: scope exit panicked with {:?}", MASS_N, panic_msg(&p))}));
+                break 'life;
+            }
+        }
+        for i in 0..MASS_N {
+            if mass_call(i, 1) != 3 + i as u32 {
+                viol.push(json!({"tag": "call-after-scope-exit-not-original", "props": ["C02"], "detail": format!("lifetime {li}: function of site {i} is not original after scope exit")}));
+                break 'life;
+            }
+        }
+    }
+    sh.note(PH_DONE, 0, 0, 0);
+    json!({
+        "violations": viol,
+        "digest": format!("{:016x}", digest),
+        "probes": {"counted_call_sites_in_one_injector": MASS_N as u64 * sc.mass_lifetimes as u64},
+        "faults": {},
+        "events": calls,
+        "calls": calls,
+        "installs_ok": MASS_N as u64 * sc.mass_lifetimes as u64,
+        "installs_refused": 0,
+    })
+}
+
 #[derive(Serialize, Deserialize, Clone, Debug, PartialEq)]
 pub struct CLifetime {
     pub n: usize,
@@ -151,11 +249,33 @@ pub struct CountScenario {
     /// that sets up its fakes in `Drop`): verification must then stay silent, everything else holds
     #[serde(default)]
     pub in_unwind: bool,
+    /// > 0: instead of `lifetimes`, this many lifetimes that each install every one of the
+    /// MASS_N distinct counted call sites through one injector
+    #[serde(default)]
+    pub mass_lifetimes: usize,
     pub lifetimes: Vec<CLifetime>,
     pub classes: Vec<String>,
 }
 
 pub fn generate(profile: &str, seed: u64, index: u64) -> CountScenario {
+    if index % 67 == 66 {
+        let mut rng = Rng::new(simos::rng::scenario_seed(seed, &format!("N/count-mass/{profile}"), index));
+        let l = 2 + rng.below(2) as usize;
+        return CountScenario {
+            engine: "N".into(),
+            family: "count".into(),
+            profile: profile.into(),
+            variant: "x86_64-linux-native".into(),
+            seed,
+            index,
+            site: "mass".into(),
+            zero_counter: false,
+            in_unwind: false,
+            mass_lifetimes: l,
+            lifetimes: Vec::new(),
+            classes: vec![format!("mass-{}-sites-{}-lifetimes", MASS_N, l)],
+        };
+    }
     let mut rng = Rng::new(simos::rng::scenario_seed(seed, &format!("N/count/{profile}"), index));
     let site = (*rng.pick(&["a", "a", "b", "c", "d", "e"])).to_string();
     let n_l = if profile == "C07" { 2 + rng.below(5) as usize } else { 1 + rng.below(3) as usize };
@@ -231,6 +351,7 @@ pub fn generate(profile: &str, seed: u64, index: u64) -> CountScenario {
         site,
         zero_counter: profile == "C06",
         in_unwind,
+        mass_lifetimes: 0,
         lifetimes,
         classes,
     }
@@ -249,6 +370,9 @@ fn panic_msg(p: &Box<dyn std::any::Any + Send>) -> String {
 struct Injected;
 
 pub fn execute(sc: &CountScenario, sh: &Shared) -> Value {
+    if sc.mass_lifetimes > 0 {
+        return execute_mass(sc, sh);
+    }
     let viol: std::cell::RefCell<Vec<Value>> = std::cell::RefCell::new(Vec::new());
     let v = |tag: &str, props: &[&str], detail: String| {
         let mut viol = viol.borrow_mut();
